@@ -77,7 +77,11 @@ def gen_scenario(seed, i):
         elif r < 0.3:
             inv = {"subcommand": "clean", "unused": rng.random() < 0.5, "flags": {"verbose": rng.choice([0, 1])}, "ninja_rc": rng.choice([0, 1, "kill"]), "args": {}}
         invs.append(inv)
-    return {"project": p, "invocations": invs}
+    sc = {"project": p, "invocations": invs}
+    if rng.random() < 0.12:
+        # the same environment for every invocation of the scenario (a CI job, a shell profile): a variable laze does not read
+        sc["env"] = {rng.choice(["LAZE_BUILD_DIR", "LAZE_BUILD_DIR", "LAZE_BUILDDIR", "LAZE_CLEAN"]): rng.choice(["ci-out", "build2", "1"])}
+    return sc
 
 
 def run_scenario(sc):
@@ -87,7 +91,7 @@ def run_scenario(sc):
         gen_args = None          # arguments of the run that wrote the current build files
         outs = {}                # (builder, app) -> outfile, from the dump of generating runs
         for inv in sc["invocations"]:
-            r = s.invoke(inv)
+            r = s.invoke(inv, extra_env=sc.get("env"))
             if inv.get("subcommand") != "clean":
                 if not r["cache_hit"]:
                     gen_args = inv["args"]
@@ -119,6 +123,11 @@ def selected(args, b, a):
 
 def judge(chk, sc, steps):
     nt = False
+    # no invocation of these scenarios gives --build-dir: `laze build`, task runs and `laze clean` made from the same directory with the
+    # same environment all work on ONE ninja file
+    used = sorted({l.split()[1] for step in steps for l in step["spawns"] if l.startswith("N:-f ") and len(l.split()) > 1})
+    if len(used) > 1:
+        chk.fail_oracle("ninja:build-dir-differs-between-subcommands", f"the invocations of one scenario (env {sc.get('env')}) ran ninja on {used}", {"scenario": sc})
     for step in steps:
         inv, rc, sp, m = step["inv"], step["rc"], step["spawns"], step["model"]
         chk.evaluations += 1
